@@ -121,7 +121,21 @@ func zzH_C30_bitvec_step() {
 	case 1:
 		kk := zzChoice(6) + 2 // 2..7
 		k = uint64(kk)
-		bits.setN(uint16(1)<<uint(kk)-1, pos)
+		// through the package's own mask constants, as codeBitmapInternal does
+		switch kk {
+		case 2:
+			bits.setN(set2BitsMask, pos)
+		case 3:
+			bits.setN(set3BitsMask, pos)
+		case 4:
+			bits.setN(set4BitsMask, pos)
+		case 5:
+			bits.setN(set5BitsMask, pos)
+		case 6:
+			bits.setN(set6BitsMask, pos)
+		default:
+			bits.setN(set7BitsMask, pos)
+		}
 		zzReach("setN")
 	case 2:
 		bits.set8(pos)
